@@ -358,7 +358,8 @@ def finish(pid, tier, seed, m, crashed, timeouts, nshards, wall):
                  ' In every check 15% of the monitor objects get a prehistory the properties declare harmless (online: '
                 'a few updates with other values, possibly one failing part-way, then reset(); offline: an evaluate() on other data '
                  'first, possibly failing or under half the sampling period which is then set back; a re-parse A,B,A; a '
-                 'neighbour object with a confusable configuration driven first).'),
+                 'neighbour object with a confusable configuration driven first; an interloper object between two calls) and 5% '
+                 'get their data as fields of one object-typed input variable.'),
         'samples': m['samples'][:6] or [{'note': 'no case generated'}],
         'exhaustive': False,
         'stats': m['stats'],
